@@ -1,7 +1,7 @@
 /-
   C11 — The framework is quiescent between reaction trees (control part: counter, postponed queue, callbacks).
 -/
-import Cobweb.Proofs.Pending
+import Cobweb.Proofs.PendingD
 
 namespace Cobweb.C11
 
@@ -34,10 +34,10 @@ theorem quiescent_flags (hc : Ctl s0) (ho : OnceInv s0) (hf : FlagInv s0) (hr : 
 
 /-- At quiescence no tracker holds a prepared entry: every entry that was prepared has been consumed by the `setup` of
     the command that waited for it (run or aborted), along every execution. -/
-theorem quiescent_trackers (hc : Ctl s0) (hp : Pend s0) (hr : Reach p h s0 s) (hq : s.stack = []) :
+theorem quiescent_trackers (hc : Ctl s0) (hp : PendD s0) (hr : Reach p h s0 s) (hq : s.stack = []) :
     s.trkSys.prepared = [] ∧ s.trkEvt.prepared = [] ∧ s.trkEnt.prepared = [] ∧ s.trkDsp.prepared = [] := by
   have hb := (quiescent_control p h hc hr hq).2.1
-  have hP := pend_reach p h hp hr
+  have hP := pend_of_pendD (pendD_reach p h hp hr)
   have hnil : ∀ T, prep T s = [] := by
     intro T
     have := hP T
@@ -55,9 +55,9 @@ theorem C11_quiescent (hr : Reach p h ({} : St) s) (hq : s.stack = []) :
     (s.trkSys.prepared = [] ∧ s.trkEvt.prepared = [] ∧ s.trkEnt.prepared = [] ∧ s.trkDsp.prepared = []) ∧ s.wq = [] := by
   obtain ⟨a, b, c⟩ := quiescent_control p h ctl_default hr hq
   obtain ⟨f1, f2, f3, f4, w⟩ := quiescent_flags p h ctl_default once_default flag_default hr hq
-  exact ⟨a, b, c, ⟨f1, f2, f3, f4⟩, quiescent_trackers p h ctl_default pend_default hr hq, w⟩
+  exact ⟨a, b, c, ⟨f1, f2, f3, f4⟩, quiescent_trackers p h ctl_default pendD_default hr hq, w⟩
 
-example : Ctl ({} : St) ∧ OnceInv ({} : St) ∧ FlagInv ({} : St) ∧ Pend ({} : St) :=
-  ⟨ctl_default, once_default, flag_default, pend_default⟩
+example : Ctl ({} : St) ∧ OnceInv ({} : St) ∧ FlagInv ({} : St) ∧ PendD ({} : St) :=
+  ⟨ctl_default, once_default, flag_default, pendD_default⟩
 
 end Cobweb.C11
